@@ -47,7 +47,7 @@ ESSENTIAL = {
     "C10_smqueue": ["ack-with-unacked-suffix", "stale-ack", "ack-beyond-sent", "server-r"],
     "C11_resume": ["resumed", "non-success-reply"],
     "C12_cut": ["tls", "logger", "sm", "websocket", "cut-in-tag", "cut-in-text", "cut-between-elements", "prior-history"],
-    "C13_streammanager": ["server-down", "failing-attempts", "end-streamclose", "end-reset", "end-streamerror", "permanent-error", "stop-while-reconnecting", "short-keepalive"],
+    "C13_streammanager": ["server-down", "failing-attempts", "end-streamclose", "end-reset", "end-streamerror", "permanent-error", "stop-while-reconnecting", "short-keepalive", "starttls"],
     "C14_sasl": ["no-common-mechanism", "list-changes-across-starttls", "reconnection-with-other-list", "reply-failure", "auth-write-fault"],
     "C15_jid": ["must-reject", "must-accept", "domain-with-resource", "resource-with-slash-or-at"],
     "C16_component": ["id-or-secret-needs-escaping", "reply-stream-error", "reply-unexpected"],
